@@ -1,4 +1,5 @@
 import Typegen.RunTheorems
+import Typegen.Theorems.C08
 /-! # C14 — re-running with nothing changed rewrites nothing; --force always regenerates -/
 namespace TG.C14
 open R
@@ -58,5 +59,12 @@ def effectiveForce (flag : Bool) (cfgForce : Option Bool) : Bool :=
 theorem C14_force_flag_or_config (flag : Bool) (cfgForce : Option Bool) :
     effectiveForce flag cfgForce = (flag || cfgForce.getD false) := by
   cases flag <;> cases cfgForce <;> rfl
+
+/-- the modelled tool: after a complete run on any project and configuration, any number of further non-forced runs
+    execute no filesystem operation -/
+theorem C14_rerun_noop_concrete (src : Pj.Project) (cfg : Gn.Config) (o : Out (KS.View × Gn.Config) Str) (forced : Bool) (n : Nat) :
+    let o1 := (run TG.C08.concreteSys src cfg forced none o).2.2
+    (exec TG.C08.concreteSys { src := src, cfg := cfg, out := o1 } (List.replicate n (.run false none))).out = o1 :=
+  C14_rerun_noop_iter TG.C08.concreteSys src cfg o forced (TG.C08.concrete_namesDistinct src cfg) n
 
 end TG.C14
